@@ -15,6 +15,7 @@ package go9p
 import (
 	"io"
 	"net"
+	"strings"
 	"sync"
 	"sync/atomic"
 	"time"
@@ -528,11 +529,31 @@ func vxAwaitCallers(cs []*vxCaller) bool {
 	}
 	if !all {
 		if vxSymbolic() {
-			vxEvent("stuck: " + vxParkedDesc())
-			var never chan int
-			<-never
+			desc := vxParkedDesc()
+			switch {
+			case strings.Contains(desc, ".Rpcnb("):
+				vxHangCallerParkedHandingItsRequestToTheWriter()
+			case strings.Contains(desc, ".Rpc("):
+				vxHangCallerParkedWaitingForItsReply()
+			default:
+				vxHangCallerNeverReturned()
+			}
 		}
 		vxAssert(false, "every-call-returns")
 	}
 	return all
+}
+
+// The three parking places of the main goroutine name the diagnosis in the HANG finding's id.
+func vxHangCallerParkedHandingItsRequestToTheWriter() {
+	var never chan int
+	<-never
+}
+func vxHangCallerParkedWaitingForItsReply() {
+	var never chan int
+	<-never
+}
+func vxHangCallerNeverReturned() {
+	var never chan int
+	<-never
 }
